@@ -19,7 +19,9 @@ from .translators.state import lazy_config
 # through an element, an isotope, an element ion and an isotope ion, plus element 0.
 PROBES = [(0, 0, 0), (1, 0, 0), (8, 0, 0), (26, 0, 0), (27, 0, 0), (29, 0, 0), (96, 0, 0), (118, 0, 0),
           (1, 1, 0), (1, 2, 0), (26, 56, 0), (27, 59, 0), (118, 294, 0), (0, 1, 0),
-          (26, 0, 2), (26, 56, 2), (1, 2, 1), (118, 294, 0)]
+          (26, 0, 2), (26, 56, 2), (1, 2, 1), (118, 294, 0),
+          # an element and an isotope that carry the energy-dependent scattering-length tables
+          (64, 0, 0), (64, 157, 0)]
 PROBES = list(dict.fromkeys(PROBES))
 
 MUTABLE_ATTRS = ["crystal_structure", "neutron", "neutron_activation", "xray", "magnetic_ff"]
@@ -91,6 +93,15 @@ class Lab:
 
     def close(self):
         self.pool.close()
+
+    def degrade(self, reason):
+        """the generated model no longer lines up with the event language (an init or module the
+        corpus names is not in the generated configuration): keep running the histories on the real
+        code, judged by the oracle only"""
+        self.model_ok = False
+        self.unreadable = reason
+        self.cfg = dict(attrs=list(LAZY_ATTRS), inits=list(FALLBACK_INITS), modules=list(FALLBACK_MODULES),
+                        groups=[], guards=[])
 
     # ---------------------------------------------------------------- canonical child
     def _canonical(self):
